@@ -127,7 +127,9 @@ func runC12(c c12Case) *Violation {
 		case "new":
 			b.get(in, "/connect")
 		case "failed-login":
-			b.login(in, idp.CodeSpec{Sub: sub, Username: r.User, Fault: "bad_sig"})
+			// the way the login fails is derived from the case (user and position), so that every failing point is visited
+			faults := []string{"bad_sig", "no_username", "nonstring_username", "wrong_aud", "expired", "refuse", "no_id_token", "wrong_iss"}
+			b.login(in, idp.CodeSpec{Sub: sub, Username: r.User, Fault: faults[(i+len(r.User)+len(c.Reqs))%len(faults)]})
 		case "authenticated":
 			lr, code, err := b.login(in, idp.CodeSpec{Sub: sub, Username: r.User})
 			if err != nil || lr.Code != http.StatusFound {
